@@ -396,7 +396,7 @@ H("dgram_api_native", ["C16", "C13"], "replay-only", "connection::dgram_api_nati
 H("endpoint_retry_token_native", ["C14"], "replay-only", "endpoint::retry_token_native",
   [("x", "u8")], 4, [], ["Endpoint::retry", "IncomingToken::from_header"], "native replay body of E2 query e2_endpoint_retry_token")
 H("endpoint_first_initial_native", ["C07", "C14", "C09"], "replay-only", "endpoint::first_initial_native",
-  [("len_", "u16")], 4, [], ["Endpoint::handle", "Endpoint::handle_first_packet"], "native replay body of E2 query e2_endpoint_first_initial")
+  [("len_", "u16"), ("dcid_len", "u8")], 4, [], ["Endpoint::handle", "Endpoint::handle_first_packet"], "native replay body of E2 query e2_endpoint_first_initial")
 H("conn_handle_packet_tail_native", ["C08"], "replay-only", "connection::handle_packet_tail_native",
   [("x", "u8")], 4, [], ["Connection::handle_packet"], "native replay body of E2 slice query e2_handle_packet_tail")
 H("conn_retry_native", ["C14", "C04", "C12"], "replay-only", "connection::retry_native",
